@@ -2,6 +2,7 @@ import TriompheModel.Proofs.MonitorBase
 import TriompheModel.Proofs.MonitorCow
 import TriompheModel.Proofs.MonitorUnwrap
 import TriompheModel.Proofs.MonitorCtor
+import TriompheModel.Proofs.MonitorCb
 /-!
 # Soundness of the trace monitor on the model's own observations
 
@@ -9,7 +10,7 @@ For every check `Ki` of `Model/Monitor.lean`: on the observation `observe (run p
 after any history `pre`, the check returns `[]`; and the monitor state stays in the simulation relation `Rel` with the
 model state.  `Props/Monitor.lean` assembles the theorem `monitor_accepts_model`.
 
-`Proofs/MonitorBase.lean`: the relation, K1 – K6.  `Proofs/MonitorCow.lean`: K7.  `Proofs/MonitorUnwrap.lean`: K8 – K10.  `Proofs/MonitorCtor.lean`: K11.
+`Proofs/MonitorBase.lean`: the relation, K1 – K6.  `Proofs/MonitorCow.lean`: K7.  `Proofs/MonitorUnwrap.lean`: K8 – K10.  `Proofs/MonitorCtor.lean`: K11.  `Proofs/MonitorCb.lean`: K12, K13.
 This file: one op.
 -/
 namespace M1
@@ -53,14 +54,16 @@ theorem checkOp_sound_perm (pre : List Op) (op : Op) (hf : FreshIds (pre ++ [op]
   have h9 := K9_sound hi hlen op
   have h10 := K10_sound hi hlen op
   have h11 := K11_sound hi op
+  have h12 : checkK12 (observeSlots (run pre)) op ((observe (run pre) op).withEvs evs') = [] := K12_sound hi op
+  have h13 : checkK13 (observeSlots (run pre)) op ((observe (run pre) op).withEvs evs') = [] := K13_sound hi op
   rw [← checkK4_withEvs _ _ _ evs' (perm_isEmpty hperm)] at h4
   rw [← checkK7_withEvs _ _ _ evs' hperm] at h7
   rw [← checkK8_withEvs _ _ _ evs' hperm] at h8
   rw [← checkK9_withEvs _ _ _ evs' hperm] at h9
   rw [← checkK10_withEvs _ _ _ evs' hperm] at h10
   rw [← checkK11_withEvs _ _ _ evs' hperm] at h11
-  rw [← hr.pre] at h4 h6 h7 h8 h9 h10 h11
-  simp only [checkOp, h1, h4, h6, h7, h8, h9, h10, h11, List.append_nil]
+  rw [← hr.pre] at h4 h6 h7 h8 h9 h10 h11 h12 h13
+  simp only [checkOp, h1, h4, h6, h7, h8, h9, h10, h11, h12, h13, List.append_nil]
 
 theorem checkOp_sound (pre : List Op) (op : Op) (hf : FreshIds (pre ++ [op])) (st : MSt) (hr : Rel st (run pre)) :
     (checkOp st op (observe (run pre) op)).2 = [] ∧
